@@ -1,5 +1,5 @@
 # id -> how ./check runs it and what MANIFEST.json says about it. pkg is relative to harness/.
-HOOK_COMMITS = []
+HOOK_COMMITS = ["a54a4c24", "b49957b1", "19f8d813"]
 NOT_APPLICABLE = {}
 CHECKS = {
     "C42": {
